@@ -121,6 +121,8 @@ def main():
         for name, src in libs:
             ob, r = compile_one(src, {})
             if r is not None:
+                if os.path.dirname(name):
+                    os.makedirs(os.path.dirname(name), exist_ok=True)
                 with open(name + ".nslir", "wb") as f:
                     pickle.dump(r.IRModule, f)
             result.setdefault("libs", []).append([name, ob["o"]])
